@@ -20,7 +20,7 @@ pub const PROP: Prop = Prop {
 const ALPHA: [&str; 17] = [" ", "\t", "\n", "\"", "'", "\\", "-", "*", "?", "[", "{", "}", "$", "(", "a", "\u{e9}", "."];
 
 fn maxlen(t: Tier) -> usize {
-    t.pick(2, 3)
+    t.pick(2, 4)
 }
 
 fn spec(t: Tier) -> Spec {
@@ -208,7 +208,7 @@ fn run(ctx: &mut Ctx) {
         std::env::set_current_dir(&sbx).unwrap();
         // the same names as starting points through the real pipeline (every 3rd batch, and always the
         // first, which holds the blank-only names ' ', TAB, newline)
-        if bi % 3 == 0 {
+        if bi % 3 == 0 && !usable.is_empty() {
             let roots: Vec<&str> = usable.iter().map(|s| s.as_str()).collect();
             let exp2: Vec<String> = usable.iter().map(|s| s.to_string()).collect();
             pipeline_check_in(ctx, &sbx, &tf, &roots, &exp2, "names as starting points");
